@@ -118,6 +118,11 @@ class CustomHash:
     def __jug_value__(self):
         return value(self.obj)
 
+    def __jug_dependencies__(self):
+        # the wrapped object may be, or contain, tasks (their values are what
+        # `__jug_value__` hands on): they are dependencies like any other
+        return [self.obj]
+
 
 def hash_with_mtime_size(path):
     '''hvalue = hash_with_mtime_size(path)
